@@ -1,7 +1,9 @@
 P = dict(
     bin="egv_c20", trace="Trace_C20", level="model_checking",
     mc=[dict(module="MC_C20", quick_cfg="MC_C20.cfg", thorough_cfg="MC_C20_thorough.cfg"),
-        dict(module="MC_C20", quick_cfg="MC_C20_gen.cfg", thorough_cfg="MC_C20_gen_thorough.cfg", coverage=False)],
+        dict(module="MC_C20", quick_cfg="MC_C20_gen.cfg", thorough_cfg="MC_C20_gen_thorough.cfg", coverage=False),
+        # negative control: get_pixel without the bounds check (the tree before the repair D25) must be refuted
+        dict(module="MC_C20", quick_cfg="MC_C20_d25.cfg", thorough_cfg="MC_C20_d25.cfg", expect_violation=True, coverage=False)],
     required_events=["draw", "fill", "set_pixel", "flag", "snap", "swap", "obs", "dbg_back", "pattern"],
     required_stats=["draws_ok", "panics_out_of_bounds", "panics_drawn_twice", "panics_after_applied_pixels",
                     "eq_true_nonempty", "eq_false", "debug_roundtrips", "debug_roundtrip_exempt", "patterns_valid"],
